@@ -3,7 +3,8 @@ use crate::command::handlers::{
     auth, compare, define, flush, permissions, ping, remember, replay, show, store,
 };
 use crate::command::types::Command;
-use crate::engine::auth::AuthManager;
+use crate::engine::auth::{AuthManager, BYPASS_USER_ID};
+use crate::engine::materialize::MaterializationCatalog;
 use crate::engine::schema::SchemaRegistry;
 use crate::engine::shard::manager::ShardManager;
 use crate::shared::response::render::Renderer;
@@ -25,6 +26,17 @@ pub async fn dispatch_command<W: AsyncWrite + Unpin>(
     use Command::*;
 
     debug!(target: "sneldb::dispatch", command = ?cmd, "Dispatching command");
+
+    // REPLAY, COMPARE, REMEMBER and SHOW handlers do not see the caller's identity (and the
+    // QUERY handler only looks at the head event type of a sequence): check read permission
+    // for every event type the command reads before handing it over.
+    if let Some(auth_mgr) = auth_manager {
+        if let Some(resp) = check_read_access(cmd, registry, auth_mgr, user_id).await {
+            writer.write_all(&renderer.render(&resp)).await?;
+            writer.flush().await?;
+            return Ok(());
+        }
+    }
 
     match cmd {
         Store { .. } => {
@@ -118,4 +130,79 @@ pub async fn dispatch_command<W: AsyncWrite + Unpin>(
             Ok(())
         }
     }
+}
+
+/// Event types whose events the command returns or consumes; `None` for commands that read none.
+async fn event_types_read(
+    cmd: &Command,
+    registry: &Arc<RwLock<SchemaRegistry>>,
+) -> Option<Vec<String>> {
+    fn of_sequence(head: &str, sequence: &Option<crate::command::types::EventSequence>) -> Vec<String> {
+        let mut types = vec![head.to_string()];
+        if let Some(seq) = sequence {
+            types.push(seq.head.event.clone());
+            types.extend(seq.links.iter().map(|(_, target)| target.event.clone()));
+        }
+        types
+    }
+    match cmd {
+        Command::Query {
+            event_type,
+            event_sequence,
+            ..
+        } => Some(of_sequence(event_type, event_sequence)),
+        Command::Compare { queries } => Some(
+            queries
+                .iter()
+                .flat_map(|q| of_sequence(&q.event_type, &q.event_sequence))
+                .collect(),
+        ),
+        Command::Replay {
+            event_type: Some(event_type),
+            ..
+        } => Some(vec![event_type.clone()]),
+        // REPLAY without an event type returns the events of every type
+        Command::Replay {
+            event_type: None, ..
+        } => Some(registry.read().await.get_all().keys().cloned().collect()),
+        Command::RememberQuery { spec } => Box::pin(event_types_read(&spec.query, registry)).await,
+        Command::ShowMaterialized { name } => {
+            let data_dir = crate::shared::path::absolutize(std::path::PathBuf::from(
+                crate::shared::config::CONFIG.engine.data_dir.as_str(),
+            ));
+            match MaterializationCatalog::load(&data_dir).map(|catalog| catalog.get(name)) {
+                Ok(Ok(Some(entry))) => Box::pin(event_types_read(&entry.spec.query, registry)).await,
+                // unknown name or unreadable catalog: the handler reports it, nothing is read
+                _ => Some(Vec::new()),
+            }
+        }
+        _ => None,
+    }
+}
+
+async fn check_read_access(
+    cmd: &Command,
+    registry: &Arc<RwLock<SchemaRegistry>>,
+    auth_mgr: &Arc<AuthManager>,
+    user_id: Option<&str>,
+) -> Option<Response> {
+    let event_types = event_types_read(cmd, registry).await?;
+    let Some(uid) = user_id else {
+        return Some(Response::error(
+            StatusCode::Unauthorized,
+            "Authentication required",
+        ));
+    };
+    if uid == BYPASS_USER_ID {
+        return None;
+    }
+    for event_type in &event_types {
+        if !auth_mgr.can_read(uid, event_type).await {
+            return Some(Response::error(
+                StatusCode::Forbidden,
+                &format!("Read permission denied for event type '{}'", event_type),
+            ));
+        }
+    }
+    None
 }
